@@ -374,9 +374,22 @@ def r7(ctx):
                 ok = False
     ctx.emit('C05-R7', ok, BTM, loops[0] if loops else f, 'parent: every non-None worker result is appended to the merge list exactly once', key='parent-append-once')
     mg = [c for c in walk_no_nested(f) if isinstance(c, ast.Call) and last_name(dotted(c.func) or '') == 'merge_bams']
-    lst = [s for s in walk_no_nested(f) if isinstance(s, ast.Assign) and mg and mg[0].args and src(s.targets[0]) in names_in(mg[0].args[0])]
-    ok = len(mg) == 1 and bool(lst) and 'bam_files_generated' in src(lst[0].value) and 'temp_header_bam_path' in src(lst[0].value)
-    ctx.emit('C05-R7', ok, BTM, mg[0] if mg else f, f'merge input = {src(lst[0].value) if lst else None} (header BAM + every job BAM)', key='merge-input')
+    # merge input: the header-only BAM written by this function plus the list every job BAM was appended to (as one expression or through a local)
+    marg = mg[0].args[0] if len(mg) == 1 and mg[0].args else None
+    for _hop in range(3):
+        if isinstance(marg, ast.Call) and dotted(marg.func) in ('list', 'tuple', 'sorted') and len(marg.args) == 1:
+            marg = marg.args[0]
+        if isinstance(marg, ast.Name):
+            dd = [s_.value for s_ in walk_no_nested(f) if isinstance(s_, ast.Assign) and len(s_.targets) == 1 and src(s_.targets[0]) == marg.id]
+            if not dd:
+                break
+            marg = dd[-1]
+    applists = {c.func.value.id for l_ in loops for c in walk_no_nested(l_) if isinstance(c, ast.Call) and isinstance(c.func, ast.Attribute) and c.func.attr == 'append'
+                and isinstance(c.func.value, ast.Name)}
+    hdr = {src(c.args[0]) for c in walk_no_nested(f) if isinstance(c, ast.Call) and last_name(dotted(c.func) or '') == 'AlignmentFile' and len(c.args) >= 2
+           and isinstance(c.args[1], ast.Constant) and 'w' in str(c.args[1].value)}
+    ok = marg is not None and bool(names_in(marg) & applists) and bool(names_in(marg) & hdr)
+    ctx.emit('C05-R7', ok, BTM, mg[0] if mg else f, f'merge input = {src(marg) if marg is not None else None} (header BAM {sorted(hdr)} + every job BAM {sorted(applists)})', key='merge-input')
     # task fields
     gt = ctx.fn(TAGGING, 'generate_tasks')
     d = [x for x in ast.walk(gt) if isinstance(x, ast.Dict)]      # also inside a nested generator function
